@@ -1,17 +1,68 @@
-//! C08 - not built yet.
-use crate::engine::{PropertyInfo, RunCtx};
+//! C08 - a fault halts the resource and, under safe_halt, forces every safe-state output.
+//!
+//! Domain: small generated configurations (1-3 periodic TASKs + background programs, 1-4
+//! programs, <= 12 fault-site statements, nested FUNCTION / FUNCTION_BLOCK calls, bit / byte /
+//! word / dword program outputs bound with AT %Q...). Every site statement contains a division,
+//! a MOD or an array index whose divisor / index is a VAR_GLOBAL the harness sets to the
+//! faulting value just before the chosen cycle. Per generated program the check ENUMERATES
+//! every fault point:
+//!
+//!   kind in { runtime error at site k in cycle c (every (k, c) in which the site executes),
+//!             driver j read_inputs error in cycle c (transient / dead driver),
+//!             driver j write_outputs error in cycle c (transient / dead driver),
+//!             watchdog_timeout() after c cycles, simulation_fault() after c cycles }
+//!   x a driver whose write_outputs fails during the safe-state delivery (none / each driver)
+//!   x fault policy {halt, safe_halt} x watchdog action {halt, safe_halt}
+//!
+//! against a generated safe-state map (bit/byte/word/dword/lword %Q addresses; exactly on,
+//! inside, around or away from program outputs) and 1-3 logging drivers.
+//!
+//! Oracle (property text + docs/guides/PLC_SAFETY_GUIDE.md + docs/specs/10-runtime.md 6.5/6.6):
+//! the injected fault surfaces as `Err`, `faulted()` is true and `last_fault()` is that error;
+//! when the safe state is due (fault policy safe_halt, or a watchdog timeout with action halt /
+//! safe_halt) every (address, value) of the map reads back from `io().outputs()` and the LAST
+//! `write_outputs` payload that EVERY driver received holds those values - checked the moment
+//! the faulting call returns, i.e. before the fault is reported; every later `execute_cycle`
+//! returns `ResourceFaulted`, leaves the variable storage digest and the output image
+//! unchanged and calls no driver; `restart` clears the latch.
+
+use std::collections::BTreeSet;
+use std::sync::{Arc, Mutex};
+
+use proptest::prelude::*;
+use proptest::strategy::ValueTree;
+use proptest::test_runner::{Config, RngAlgorithm, TestRng, TestRunner};
+use serde::{Deserialize, Serialize};
+use serde_json::json;
+use sha2::{Digest, Sha256};
+
+use trust_runtime::error::RuntimeError;
+use trust_runtime::harness::TestHarness;
+use trust_runtime::io::{IoAddress, IoDriver, IoInterface, IoSafeState};
+use trust_runtime::scheduler::{Clock, ResourceRunner, ResourceState};
+use trust_runtime::value::{Duration, Value};
+use trust_runtime::watchdog::{FaultPolicy, WatchdogAction, WatchdogPolicy};
+use trust_runtime::{RestartMode, Runtime};
+
+use crate::engine::tape::{tape_strategy, Reader, Tape};
+use crate::engine::{Probe, PropertyInfo, RunCtx};
 
 pub fn info() -> PropertyInfo {
     PropertyInfo {
         id: "C08",
-        level: "exploration",
-        rule: "not built yet",
-        assumptions: &[],
-        workers_quick: 1,
-        workers_thorough: 1,
+        level: "fault_enumeration",
+        rule: "one case = one fault point (site statement x cycle | driver read/write error x driver x cycle | watchdog_timeout / simulation_fault after c cycles) x failing-delivery driver x fault policy x watchdog action, enumerated exhaustively for each generated program (<= 12 site statements over 1-3 tasks + background programs, nested FUNCTION/FB calls) with its generated safe-state map and 1-3 logging drivers; non-trivial = the fault point lies inside a nested call or in a program that is not the first to run in the faulting cycle, or >= 2 drivers are attached, or a safe-state address overlaps a program output; distinct by SHA-256 of (program source, safe map, fault point)",
+        assumptions: &[
+            "an I/O driver 'with policy fault' is one whose read_inputs/write_outputs returns Err (io/modbus.rs handle_error: on_error=fault returns RuntimeError::IoDriver, warn/ignore return Ok); the logging drivers model exactly that",
+            "'delivered to every driver' = write_outputs was invoked on the driver with an image holding the safe values, whether or not that driver then reports an error",
+            "safe-state maps are well-typed per address size (what config.rs parse_io_value produces), use flat %Q addresses only and do not contain two entries for the same bits",
+            "watchdog_timeout() and simulation_fault() are injected between cycles, the way scheduler.rs / simulation.rs call them",
+        ],
+        workers_quick: 8,
+        workers_thorough: 16,
         address_space_limit: 0,
-        watchdog_quick_s: 600,
-        watchdog_thorough_s: 3600,
+        watchdog_quick_s: 900,
+        watchdog_thorough_s: 7200,
         run,
     }
 }
@@ -21,6 +72,1395 @@ pub fn helper(_args: &[String]) -> Option<i32> {
     None
 }
 
+// ---------------------------------------------------------------------------------------
+// Model of a generated configuration
+// ---------------------------------------------------------------------------------------
+
+#[derive(Clone, Copy, Debug, PartialEq, Eq)]
+enum Form {
+    Div,
+    Mod,
+    Index,
+    IfDiv,
+    ForDiv,
+    CaseMod,
+    RepeatDiv,
+    Fn1,
+    Fn2,
+    Fb1,
+    Fb2,
+}
+
+impl Form {
+    fn name(self) -> &'static str {
+        match self {
+            Form::Div => "div",
+            Form::Mod => "mod",
+            Form::Index => "index",
+            Form::IfDiv => "if_div",
+            Form::ForDiv => "for_div",
+            Form::CaseMod => "case_mod",
+            Form::RepeatDiv => "repeat_div",
+            Form::Fn1 => "function",
+            Form::Fn2 => "function_in_function",
+            Form::Fb1 => "fb",
+            Form::Fb2 => "fb_in_fb",
+        }
+    }
+    /// Call nesting of the statement that actually faults (0 = program body).
+    fn depth(self) -> u8 {
+        match self {
+            Form::Fn1 | Form::Fb1 => 1,
+            Form::Fn2 | Form::Fb2 => 2,
+            _ => 0,
+        }
+    }
+}
+
+#[derive(Clone, Debug)]
+struct Site {
+    form: Form,
+    prog: usize,
+    /// name of the VAR_GLOBAL that controls the fault (`d3` / `i3`)
+    ctl: String,
+    /// value that makes the statement fault
+    fault_value: i32,
+    /// counter global (`n3`), incremented once or twice per execution
+    counter: String,
+}
+
+#[allow(dead_code)]
+#[derive(Clone, Debug)]
+struct OutVar {
+    name: String,
+    /// first bit of the output in the %Q image and its length in bits
+    bit0: u32,
+    bits: u32,
+}
+
+#[derive(Clone, Debug)]
+struct SafeEntry {
+    text: String,
+    addr: IoAddress,
+    value: Value,
+    overlaps_output: bool,
+}
+
+#[allow(dead_code)]
+#[derive(Clone, Debug)]
+struct Model {
+    source: String,
+    sites: Vec<Site>,
+    /// task index per program (None = background program)
+    prog_task: Vec<Option<usize>>,
+    ntasks: usize,
+    outputs: Vec<OutVar>,
+    safe: Vec<SafeEntry>,
+    ndrivers: usize,
+}
+
+fn addr_text(bit0: u32, bits: u32) -> String {
+    let byte = bit0 / 8;
+    match bits {
+        1 => format!("%QX{}.{}", byte, bit0 % 8),
+        8 => format!("%QB{byte}"),
+        16 => format!("%QW{byte}"),
+        32 => format!("%QD{byte}"),
+        _ => format!("%QL{byte}"),
+    }
+}
+
+fn ranges_overlap(a0: u32, alen: u32, b0: u32, blen: u32) -> bool {
+    a0 < b0 + blen && b0 < a0 + alen
+}
+
+/// Deterministic function of the tape. Low tape values give the simplest configuration
+/// (one task, one program, one plain division, one driver, a one-entry map).
+fn generate(tape: &Tape) -> Model {
+    let mut r = Reader::new(tape);
+    let ntasks = 1 + r.weighted(&[4, 3, 3]);
+    let nprogs = 1 + r.weighted(&[3, 3, 2, 2]);
+    let ndrivers = 1 + r.weighted(&[3, 4, 3]);
+    let nsites = 1 + r.pick(12);
+
+    // tasks: interval 10/20/30 ms, priorities a permutation-ish pick (ties allowed)
+    let mut task_decl = String::new();
+    for t in 0..ntasks {
+        let interval = [10, 20, 30][r.weighted(&[5, 3, 2])];
+        let prio = 1 + r.pick(3);
+        task_decl.push_str(&format!(
+            "TASK T{t} (INTERVAL := T#{interval}ms, PRIORITY := {prio});\n"
+        ));
+    }
+    // programs -> task (index ntasks = background)
+    let mut prog_task = Vec::new();
+    for _ in 0..nprogs {
+        let t = r.pick(ntasks + 1);
+        prog_task.push(if t == ntasks { None } else { Some(t) });
+    }
+
+    // program outputs: up to 5, laid out from byte 0 upwards (no alignment on purpose)
+    let nouts = r.weighted(&[1, 3, 3, 2, 2, 1]);
+    let mut outputs: Vec<OutVar> = Vec::new();
+    // (owner program, declaration line if local, assignment statement)
+    let mut out_decl_local: Vec<Vec<String>> = vec![Vec::new(); nprogs];
+    let mut out_decl_global: Vec<String> = Vec::new();
+    let mut out_external: Vec<Vec<String>> = vec![Vec::new(); nprogs];
+    let mut out_stmt: Vec<Vec<String>> = vec![Vec::new(); nprogs];
+    let mut next_byte: u32 = 0;
+    let mut next_bit: u32 = 0;
+    for j in 0..nouts {
+        let size = r.weighted(&[4, 3, 3]); // bit, byte, word
+        let owner = r.pick(nprogs);
+        let global = r.chance(1, 3);
+        let name = format!("q{j}");
+        let (bit0, bits, ty, lit) = match size {
+            0 => {
+                if next_bit >= 8 {
+                    next_bit = 0;
+                    next_byte += 1;
+                }
+                let b = next_byte * 8 + next_bit;
+                next_bit += 1 + r.pick(3) as u32;
+                (b, 1, "BOOL", "TRUE".to_string())
+            }
+            1 => {
+                if next_bit > 0 {
+                    next_bit = 0;
+                    next_byte += 1;
+                }
+                let b = next_byte * 8;
+                next_byte += 1;
+                let v = [0xA5u32, 0xFF, 0x01, 0x80, 0x5A][r.pick(5)];
+                (b, 8, "BYTE", format!("BYTE#16#{v:02X}"))
+            }
+            _ => {
+                if next_bit > 0 {
+                    next_bit = 0;
+                    next_byte += 1;
+                }
+                let b = next_byte * 8;
+                next_byte += 2;
+                let v = [0xBEEFu32, 0xFFFF, 0x0100, 0x8001, 0x00FF][r.pick(5)];
+                (b, 16, "WORD", format!("WORD#16#{v:04X}"))
+            }
+        };
+        let at = addr_text(bit0, bits);
+        if global {
+            out_decl_global.push(format!("    {name} AT {at} : {ty};\n"));
+            out_external[owner].push(format!("    {name} : {ty};\n"));
+        } else {
+            out_decl_local[owner].push(format!("    {name} AT {at} : {ty};\n"));
+        }
+        out_stmt[owner].push(format!("{name} := {lit};\n"));
+        outputs.push(OutVar { name, bit0, bits });
+    }
+    if next_bit > 0 {
+        next_byte += 1;
+    }
+
+    // sites
+    let mut sites: Vec<Site> = Vec::new();
+    let mut globals = String::new();
+    let mut prog_ext: Vec<String> = vec![String::new(); nprogs];
+    let mut prog_var: Vec<String> = vec![String::new(); nprogs];
+    let mut prog_body: Vec<Vec<String>> = vec![Vec::new(); nprogs];
+    let mut uses = [false; 4]; // F1, F2, FB1, FB2
+    let mut prog_arr = vec![false; nprogs];
+    let mut prog_loop = vec![false; nprogs];
+    for k in 0..nsites {
+        let form = [
+            Form::Div,
+            Form::Index,
+            Form::Mod,
+            Form::IfDiv,
+            Form::ForDiv,
+            Form::CaseMod,
+            Form::RepeatDiv,
+            Form::Fn1,
+            Form::Fb1,
+            Form::Fn2,
+            Form::Fb2,
+        ][r.weighted(&[3, 3, 2, 2, 2, 1, 1, 3, 3, 3, 3])];
+        let prog = r.pick(nprogs);
+        let counter = format!("n{k}");
+        // some counters are DWORD-size program outputs themselves
+        let counter_is_output = !r.chance(4, 5); // a zero tape word means: plain counter
+        if counter_is_output {
+            let bit0 = next_byte * 8;
+            next_byte += 4;
+            globals.push_str(&format!(
+                "    {counter} AT {} : DINT := 0;\n",
+                addr_text(bit0, 32)
+            ));
+            outputs.push(OutVar {
+                name: counter.clone(),
+                bit0,
+                bits: 32,
+            });
+        } else {
+            globals.push_str(&format!("    {counter} : DINT := 0;\n"));
+        }
+        let (ctl, fault_value) = if form == Form::Index {
+            let normal = [0, 1, -2, 2][r.pick(4)];
+            globals.push_str(&format!("    i{k} : DINT := {normal};\n"));
+            (format!("i{k}"), [3, -3, 1_000_000, -1_000_000][r.pick(4)])
+        } else {
+            let normal = [1, -1, 7, 2_147_483_647][r.pick(4)];
+            globals.push_str(&format!("    d{k} : DINT := {normal};\n"));
+            (format!("d{k}"), 0)
+        };
+        prog_ext[prog].push_str(&format!("    {counter} : DINT;\n    {ctl} : DINT;\n"));
+        let c = &counter;
+        let stmt = match form {
+            Form::Div => format!("{c} := {c} + DINT#1 + DINT#0 / {ctl};\n"),
+            Form::Mod => format!("{c} := {c} + DINT#1 + DINT#0 MOD {ctl};\n"),
+            Form::Index => {
+                prog_arr[prog] = true;
+                format!("{c} := {c} + arr[{ctl}] + DINT#1;\n")
+            }
+            Form::IfDiv => format!(
+                "IF {c} >= DINT#0 THEN\n  {c} := {c} + DINT#1 + DINT#0 / {ctl};\nEND_IF;\n"
+            ),
+            Form::ForDiv => {
+                prog_loop[prog] = true;
+                format!(
+                    "FOR k := DINT#0 TO DINT#1 DO\n  {c} := {c} + DINT#1 + DINT#0 / {ctl};\nEND_FOR;\n"
+                )
+            }
+            Form::CaseMod => format!(
+                "CASE {c} OF\n  0..1000000: {c} := {c} + DINT#1 + DINT#0 MOD {ctl};\nEND_CASE;\n"
+            ),
+            Form::RepeatDiv => format!(
+                "REPEAT {c} := {c} + DINT#1 + DINT#0 / {ctl}; UNTIL TRUE END_REPEAT;\n"
+            ),
+            Form::Fn1 => {
+                uses[0] = true;
+                format!("{c} := {c} + F1({ctl});\n")
+            }
+            Form::Fn2 => {
+                uses[0] = true;
+                uses[1] = true;
+                format!("{c} := {c} + F2({ctl});\n")
+            }
+            Form::Fb1 => {
+                uses[2] = true;
+                prog_var[prog].push_str(&format!("    inst{k} : FB1;\n"));
+                format!("inst{k}(d := {ctl});\n{c} := {c} + inst{k}.o;\n")
+            }
+            Form::Fb2 => {
+                uses[2] = true;
+                uses[3] = true;
+                prog_var[prog].push_str(&format!("    inst{k} : FB2;\n"));
+                format!("inst{k}(d := {ctl});\n{c} := {c} + inst{k}.o;\n")
+            }
+        };
+        prog_body[prog].push(stmt);
+        sites.push(Site {
+            form,
+            prog,
+            ctl,
+            fault_value,
+            counter,
+        });
+    }
+    // place the output assignments somewhere in the owner's body
+    for p in 0..nprogs {
+        for s in std::mem::take(&mut out_stmt[p]) {
+            let at = r.pick(prog_body[p].len() + 1);
+            prog_body[p].insert(at, s);
+        }
+    }
+
+    // safe-state map
+    let nsafe = r.weighted(&[3, 1, 3, 3, 2, 1]); // index 0 -> 1 entry, 1 -> empty map
+    let nsafe = match nsafe {
+        0 => 1,
+        1 => 0,
+        n => n,
+    };
+    let mut safe: Vec<SafeEntry> = Vec::new();
+    let mut used: Vec<(u32, u32)> = Vec::new();
+    let free_base = next_byte; // first byte no program output uses
+    for _ in 0..nsafe {
+        let mode = r.weighted(&[3, 2, 1, 2, 1, 3]);
+        let pick_out = if outputs.is_empty() {
+            None
+        } else {
+            Some(outputs[r.pick(outputs.len())].clone())
+        };
+        let sel = r.word();
+        let (bit0, bits) = match (mode, pick_out) {
+            // exactly a program output
+            (0, Some(o)) => (o.bit0, o.bits),
+            // a part of a program output (bit inside byte/word/dword, byte inside word/dword)
+            (1, Some(o)) => {
+                if o.bits == 1 {
+                    (o.bit0, 1)
+                } else if o.bits >= 16 && sel & 1 == 1 {
+                    let nbytes = o.bits / 8;
+                    (o.bit0 + 8 * ((sel >> 1) % nbytes), 8)
+                } else {
+                    (o.bit0 + (sel >> 1) % o.bits, 1)
+                }
+            }
+            // something larger around a program output
+            (2, Some(o)) => {
+                let byte = o.bit0 / 8;
+                if o.bits == 1 && sel & 1 == 0 {
+                    (byte * 8, 8)
+                } else if o.bits <= 8 {
+                    (byte * 8, 16)
+                } else {
+                    (byte.saturating_sub(1) * 8, 32)
+                }
+            }
+            // right next to the previous entry: another bit of the same byte after a bit
+            // entry, otherwise the bit / byte / word that starts where the previous entry ends
+            (5, _) if !used.is_empty() => {
+                let (pb, pl) = *used.last().unwrap();
+                if pl == 1 {
+                    let base = pb / 8 * 8;
+                    let free: Vec<u32> = (base..base + 8)
+                        .filter(|b| !used.iter().any(|(u, l)| ranges_overlap(*u, *l, *b, 1)))
+                        .collect();
+                    if free.is_empty() {
+                        (base + 8, 1)
+                    } else {
+                        (free[(sel as usize >> 4) % free.len()], 1)
+                    }
+                } else {
+                    let start = pb + pl;
+                    match sel % 3 {
+                        0 => (start + (sel >> 4) % 8, 1),
+                        1 => (start, 8),
+                        _ => (start, 16),
+                    }
+                }
+            }
+            // unbound, near
+            (3, _) | (5, _) | (0..=2, None) => {
+                let byte = free_base + (sel >> 8) % 6;
+                match sel % 4 {
+                    0 => (byte * 8 + (sel >> 4) % 8, 1),
+                    1 => (byte * 8, 8),
+                    2 => (byte * 8, 16),
+                    _ => (byte * 8, 32),
+                }
+            }
+            // unbound, far beyond the image the program uses
+            _ => {
+                let byte = 24 + (sel >> 8) % 40;
+                match sel % 5 {
+                    0 => (byte * 8 + (sel >> 4) % 8, 1),
+                    1 => (byte * 8, 8),
+                    2 => (byte * 8, 16),
+                    3 => (byte * 8, 32),
+                    _ => (byte * 8, 64),
+                }
+            }
+        };
+        let raw = r.u64();
+        if used.iter().any(|(b, l)| ranges_overlap(*b, *l, bit0, bits)) {
+            continue; // the map never holds two entries for the same bits
+        }
+        used.push((bit0, bits));
+        let pattern = match raw % 4 {
+            0 => 0u64,
+            1 => u64::MAX,
+            _ => raw >> 2,
+        };
+        let value = match bits {
+            1 => Value::Bool(pattern & 1 == 1),
+            8 => Value::Byte(pattern as u8),
+            16 => Value::Word(pattern as u16),
+            32 => Value::DWord(pattern as u32),
+            _ => Value::LWord(pattern),
+        };
+        let text = addr_text(bit0, bits);
+        let addr = IoAddress::parse(&text).expect("generated address parses");
+        let overlaps_output = outputs
+            .iter()
+            .any(|o| ranges_overlap(o.bit0, o.bits, bit0, bits));
+        safe.push(SafeEntry {
+            text,
+            addr,
+            value,
+            overlaps_output,
+        });
+    }
+
+    // source text
+    let mut src = String::from("CONFIGURATION Conf\nVAR_GLOBAL\n");
+    src.push_str(&globals);
+    for g in &out_decl_global {
+        src.push_str(g);
+    }
+    src.push_str("END_VAR\n");
+    src.push_str(&task_decl);
+    for (p, t) in prog_task.iter().enumerate() {
+        match t {
+            Some(t) => src.push_str(&format!("PROGRAM I{p} WITH T{t} : P{p};\n")),
+            None => src.push_str(&format!("PROGRAM I{p} : P{p};\n")),
+        }
+    }
+    src.push_str("END_CONFIGURATION\n\n");
+    if uses[0] {
+        src.push_str("FUNCTION F1 : DINT\nVAR_INPUT d : DINT; END_VAR\nF1 := DINT#1 + DINT#0 / d;\nEND_FUNCTION\n\n");
+    }
+    if uses[1] {
+        src.push_str("FUNCTION F2 : DINT\nVAR_INPUT d : DINT; END_VAR\nF2 := F1(d);\nEND_FUNCTION\n\n");
+    }
+    if uses[2] {
+        src.push_str("FUNCTION_BLOCK FB1\nVAR_INPUT d : DINT; END_VAR\nVAR_OUTPUT o : DINT; END_VAR\no := DINT#1 + DINT#0 / d;\nEND_FUNCTION_BLOCK\n\n");
+    }
+    if uses[3] {
+        src.push_str("FUNCTION_BLOCK FB2\nVAR_INPUT d : DINT; END_VAR\nVAR_OUTPUT o : DINT; END_VAR\nVAR inner : FB1; END_VAR\ninner(d := d);\no := inner.o;\nEND_FUNCTION_BLOCK\n\n");
+    }
+    for p in 0..nprogs {
+        src.push_str(&format!("PROGRAM P{p}\n"));
+        if !prog_ext[p].is_empty() || !out_external[p].is_empty() {
+            src.push_str("VAR_EXTERNAL\n");
+            src.push_str(&prog_ext[p]);
+            for e in &out_external[p] {
+                src.push_str(e);
+            }
+            src.push_str("END_VAR\n");
+        }
+        src.push_str("VAR\n");
+        src.push_str(&prog_var[p]);
+        if prog_arr[p] {
+            src.push_str("    arr : ARRAY[-2..2] OF DINT;\n");
+        }
+        if prog_loop[p] {
+            src.push_str("    k : DINT;\n");
+        }
+        for d in &out_decl_local[p] {
+            src.push_str(d);
+        }
+        src.push_str("    spare : DINT;\nEND_VAR\n");
+        for s in &prog_body[p] {
+            src.push_str(s);
+        }
+        src.push_str("END_PROGRAM\n\n");
+    }
+
+    Model {
+        source: src,
+        sites,
+        prog_task,
+        ntasks,
+        outputs,
+        safe,
+        ndrivers,
+    }
+}
+
+// ---------------------------------------------------------------------------------------
+// Fault points
+// ---------------------------------------------------------------------------------------
+
+#[derive(Clone, Copy, Debug, PartialEq, Eq, Serialize, Deserialize)]
+pub enum Pol {
+    Halt,
+    SafeHalt,
+}
+
+#[derive(Clone, Debug, PartialEq, Eq, Serialize, Deserialize)]
+pub enum Kind {
+    /// runtime error at site statement `site`
+    Site { site: u8 },
+    /// driver `driver` fails read_inputs in the faulting cycle; `dead` = every later call
+    /// of that driver (reads and writes) fails as well
+    Read { driver: u8, dead: bool },
+    /// driver `driver` fails write_outputs when the faulting cycle publishes its outputs
+    Write { driver: u8, dead: bool },
+    /// `Runtime::watchdog_timeout()` after `cycle` completed cycles
+    Watchdog,
+    /// `Runtime::simulation_fault()` after `cycle` completed cycles
+    Sim,
+}
+
+#[derive(Clone, Debug, PartialEq, Eq, Serialize, Deserialize)]
+pub struct Point {
+    pub kind: Kind,
+    /// 1..=3: the faulting cycle (Site/Read/Write) or the number of completed cycles before
+    /// the injected call (Watchdog/Sim)
+    pub cycle: u8,
+    pub policy: Pol,
+    pub watchdog: Pol,
+    /// a driver whose write_outputs fails from the fault on, i.e. during safe-state delivery
+    pub deliver_fail: Option<u8>,
+    pub warm_restart: bool,
+}
+
+#[derive(Clone, Debug, Serialize, Deserialize)]
+pub struct PointCase {
+    pub tape: Tape,
+    pub point: Point,
+}
+
+// ---------------------------------------------------------------------------------------
+// Logging drivers
+// ---------------------------------------------------------------------------------------
+
+#[derive(Clone, Copy, Debug, PartialEq, Eq)]
+enum Mode {
+    Ok,
+    FailOnce,
+    FailAlways,
+}
+
+#[allow(dead_code)]
+#[derive(Debug)]
+enum Event {
+    Read { driver: usize },
+    Write { driver: usize, payload: Vec<u8> },
+}
+
+struct Shared {
+    events: Vec<Event>,
+    read_mode: Vec<Mode>,
+    write_mode: Vec<Mode>,
+}
+
+struct LogDriver {
+    id: usize,
+    shared: Arc<Mutex<Shared>>,
+}
+
+fn take_mode(m: &mut Mode) -> bool {
+    match *m {
+        Mode::Ok => false,
+        Mode::FailOnce => {
+            *m = Mode::Ok;
+            true
+        }
+        Mode::FailAlways => true,
+    }
+}
+
+impl IoDriver for LogDriver {
+    fn read_inputs(&mut self, _inputs: &mut [u8]) -> Result<(), RuntimeError> {
+        let mut s = self.shared.lock().unwrap();
+        s.events.push(Event::Read { driver: self.id });
+        if take_mode(&mut s.read_mode[self.id]) {
+            return Err(RuntimeError::IoDriver(
+                format!("driver {} read failed", self.id).into(),
+            ));
+        }
+        Ok(())
+    }
+
+    fn write_outputs(&mut self, outputs: &[u8]) -> Result<(), RuntimeError> {
+        let mut s = self.shared.lock().unwrap();
+        s.events.push(Event::Write {
+            driver: self.id,
+            payload: outputs.to_vec(),
+        });
+        if take_mode(&mut s.write_mode[self.id]) {
+            return Err(RuntimeError::IoDriver(
+                format!("driver {} write failed", self.id).into(),
+            ));
+        }
+        Ok(())
+    }
+}
+
+// ---------------------------------------------------------------------------------------
+// Observation helpers
+// ---------------------------------------------------------------------------------------
+
+fn storage_digest(rt: &Runtime) -> String {
+    let st = rt.storage();
+    let mut h = Sha256::new();
+    h.update(format!("{:?}", st.globals()).as_bytes());
+    h.update(format!("{:?}", st.retain()).as_bytes());
+    let mut ids: Vec<_> = st.instances().keys().copied().collect();
+    ids.sort_by_key(|i| i.0);
+    for id in ids {
+        h.update(format!("{:?}={:?}", id, st.instances().get(&id)).as_bytes());
+    }
+    h.update(format!("{:?}", st.frames()).as_bytes());
+    h.finalize().iter().map(|b| format!("{b:02x}")).collect()
+}
+
+fn counters(rt: &Runtime, model: &Model) -> Vec<i64> {
+    model
+        .sites
+        .iter()
+        .map(|s| match rt.storage().get_global(&s.counter) {
+            Some(Value::DInt(v)) => *v as i64,
+            Some(Value::LInt(v)) => *v,
+            Some(Value::Int(v)) => *v as i64,
+            _ => i64::MIN,
+        })
+        .collect()
+}
+
+/// Decode `addr` from a driver payload with the runtime's own image decoder.
+fn read_from_payload(payload: &[u8], addr: &IoAddress) -> Result<Value, String> {
+    let mut io = IoInterface::new();
+    io.resize(0, payload.len(), 0);
+    io.outputs_mut().copy_from_slice(payload);
+    io.read(addr).map_err(|e| format!("{e:?}"))
+}
+
+fn pol_fault(p: Pol) -> FaultPolicy {
+    match p {
+        Pol::Halt => FaultPolicy::Halt,
+        Pol::SafeHalt => FaultPolicy::SafeHalt,
+    }
+}
+
+fn pol_watchdog(p: Pol) -> WatchdogAction {
+    match p {
+        Pol::Halt => WatchdogAction::Halt,
+        Pol::SafeHalt => WatchdogAction::SafeHalt,
+    }
+}
+
+thread_local! {
+    /// Generator / infrastructure trouble seen inside a case (reported as inconclusive, exit 2).
+    static TROUBLE: std::cell::RefCell<Vec<String>> = const { std::cell::RefCell::new(Vec::new()) };
+}
+
+fn trouble(msg: String) {
+    TROUBLE.with(|t| {
+        let mut t = t.borrow_mut();
+        if t.len() < 3 {
+            t.push(msg);
+        }
+    });
+}
+
+fn flush_trouble(ctx: &mut RunCtx) {
+    let msgs: Vec<String> = TROUBLE.with(|t| std::mem::take(&mut *t.borrow_mut()));
+    for m in msgs {
+        ctx.inconclusive(format!("generator trouble (not a violation): {m}"));
+    }
+}
+
+const STEP_MS: i64 = 10;
+const FAULT_CYCLES: u8 = 3;
+const LATER_CYCLES: usize = 2;
+
+/// Fault-free run: which sites execute in which cycle (1-based cycle -> set of sites).
+fn dry_run(model: &Model) -> Result<Vec<Vec<bool>>, String> {
+    let mut h = TestHarness::from_source(&model.source)
+        .map_err(|e| format!("generated program does not compile: {e:?}"))?;
+    let mut out = Vec::new();
+    for c in 1..=FAULT_CYCLES + LATER_CYCLES as u8 + 1 {
+        let before = counters(h.runtime(), model);
+        h.advance_time(Duration::from_millis(STEP_MS));
+        if let Err(e) = h.runtime_mut().execute_cycle() {
+            return Err(format!("fault-free run faults in cycle {c}: {e:?}"));
+        }
+        let after = counters(h.runtime(), model);
+        out.push(before.iter().zip(after.iter()).map(|(a, b)| a != b).collect());
+    }
+    Ok(out)
+}
+
+fn enumerate_points(model: &Model, runs: &[Vec<bool>]) -> Vec<Point> {
+    let mut kinds: Vec<(Kind, u8, Vec<Option<u8>>)> = Vec::new();
+    let nd = model.ndrivers as u8;
+    let deliver: Vec<Option<u8>> = std::iter::once(None).chain((0..nd).map(Some)).collect();
+    for c in 1..=FAULT_CYCLES {
+        for (k, _) in model.sites.iter().enumerate() {
+            if runs[c as usize - 1][k] {
+                kinds.push((Kind::Site { site: k as u8 }, c, deliver.clone()));
+            }
+        }
+        for d in 0..nd {
+            for dead in [false, true] {
+                kinds.push((Kind::Read { driver: d, dead }, c, vec![None]));
+                kinds.push((Kind::Write { driver: d, dead }, c, vec![None]));
+            }
+        }
+        kinds.push((Kind::Watchdog, c, deliver.clone()));
+        kinds.push((Kind::Sim, c, deliver.clone()));
+    }
+    let mut out = Vec::new();
+    let mut flip = false;
+    for (kind, cycle, delivers) in kinds {
+        for deliver_fail in delivers {
+            for policy in [Pol::Halt, Pol::SafeHalt] {
+                for watchdog in [Pol::Halt, Pol::SafeHalt] {
+                    flip = !flip;
+                    out.push(Point {
+                        kind: kind.clone(),
+                        cycle,
+                        policy,
+                        watchdog,
+                        deliver_fail,
+                        warm_restart: flip,
+                    });
+                }
+            }
+        }
+    }
+    out
+}
+
+fn describe(model: &Model, point: &Point) -> String {
+    let map: Vec<String> = model
+        .safe
+        .iter()
+        .map(|e| format!("{}={:?}", e.text, e.value))
+        .collect();
+    format!(
+        "fault point {point:?}; {} driver(s); safe-state map [{}]; program:\n{}",
+        model.ndrivers,
+        map.join(", "),
+        model.source
+    )
+}
+
+/// Run one fault point against a fresh runtime and check the oracle.
+fn check_point(model: &Model, point: &Point, probe: &mut Probe) -> Result<(), String> {
+    check_point_inner(model, point, probe).map_err(|m| format!("{m}\n--- {}", describe(model, point)))
+}
+
+fn check_point_inner(model: &Model, point: &Point, probe: &mut Probe) -> Result<(), String> {
+    let nd = model.ndrivers;
+    // a replayed/hand-written point may not fit the program: that is not a violation
+    let fits = match &point.kind {
+        Kind::Site { site } => (*site as usize) < model.sites.len(),
+        Kind::Read { driver, .. } | Kind::Write { driver, .. } => (*driver as usize) < nd,
+        _ => true,
+    } && point.deliver_fail.map(|d| (d as usize) < nd).unwrap_or(true)
+        && (1..=FAULT_CYCLES).contains(&point.cycle);
+    if !fits {
+        probe.label("point_does_not_fit_program");
+        return Ok(());
+    }
+
+    let mut h = match TestHarness::from_source(&model.source) {
+        Ok(h) => h,
+        Err(e) => {
+            trouble(format!("generated program does not compile: {e:?}\n{}", model.source));
+            return Ok(());
+        }
+    };
+    let shared = Arc::new(Mutex::new(Shared {
+        events: Vec::new(),
+        read_mode: vec![Mode::Ok; nd],
+        write_mode: vec![Mode::Ok; nd],
+    }));
+    {
+        let rt = h.runtime_mut();
+        rt.set_fault_policy(pol_fault(point.policy));
+        rt.set_watchdog_policy(WatchdogPolicy {
+            enabled: true,
+            timeout: Duration::from_millis(1000),
+            action: pol_watchdog(point.watchdog),
+        });
+        rt.set_io_safe_state(IoSafeState {
+            outputs: model
+                .safe
+                .iter()
+                .map(|e| (e.addr.clone(), e.value.clone()))
+                .collect(),
+        });
+        for d in 0..nd {
+            rt.add_io_driver(
+                format!("drv{d}"),
+                Box::new(LogDriver {
+                    id: d,
+                    shared: shared.clone(),
+                }),
+            );
+        }
+    }
+
+    let arm_delivery = |shared: &Arc<Mutex<Shared>>| {
+        if let Some(d) = point.deliver_fail {
+            shared.lock().unwrap().write_mode[d as usize] = Mode::FailAlways;
+        }
+    };
+
+    // ---- run up to the fault --------------------------------------------------------
+    let in_cycle = matches!(point.kind, Kind::Site { .. } | Kind::Read { .. } | Kind::Write { .. });
+    let mut before_fault_cycle: Vec<i64> = Vec::new();
+    let mut reported: Option<RuntimeError> = None;
+    for c in 1..=point.cycle {
+        h.advance_time(Duration::from_millis(STEP_MS));
+        let faulting = in_cycle && c == point.cycle;
+        if faulting {
+            match &point.kind {
+                Kind::Site { site } => {
+                    let s = &model.sites[*site as usize];
+                    h.runtime_mut()
+                        .storage_mut()
+                        .set_global(s.ctl.as_str(), Value::DInt(s.fault_value));
+                }
+                Kind::Read { driver, dead } => {
+                    let mut s = shared.lock().unwrap();
+                    s.read_mode[*driver as usize] = if *dead { Mode::FailAlways } else { Mode::FailOnce };
+                    if *dead {
+                        s.write_mode[*driver as usize] = Mode::FailAlways;
+                    }
+                }
+                Kind::Write { driver, dead } => {
+                    let mut s = shared.lock().unwrap();
+                    s.write_mode[*driver as usize] = if *dead { Mode::FailAlways } else { Mode::FailOnce };
+                    if *dead {
+                        s.read_mode[*driver as usize] = Mode::FailAlways;
+                    }
+                }
+                _ => {}
+            }
+            arm_delivery(&shared);
+            before_fault_cycle = counters(h.runtime(), model);
+        }
+        let res = h.runtime_mut().execute_cycle();
+        match (faulting, res) {
+            (false, Ok(())) => {}
+            (false, Err(e)) => {
+                return Err(format!(
+                    "cycle {c} before the injected fault returned {e:?} (the fault-free run of this program does not fault)"
+                ));
+            }
+            (true, Ok(())) => {
+                return Err(format!(
+                    "the injected fault did not surface: execute_cycle returned Ok in cycle {c} and faulted()={}",
+                    h.runtime().faulted()
+                ));
+            }
+            (true, Err(e)) => reported = Some(e),
+        }
+    }
+    if !in_cycle {
+        arm_delivery(&shared);
+        before_fault_cycle = counters(h.runtime(), model);
+        let rt = h.runtime_mut();
+        reported = Some(match point.kind {
+            Kind::Watchdog => rt.watchdog_timeout(),
+            _ => rt.simulation_fault("injected by C08"),
+        });
+    }
+    let reported = reported.expect("a fault was injected");
+    // ---- the fault has just been reported -------------------------------------------
+    let events_at_report = shared.lock().unwrap().events.len();
+    let rt = h.runtime();
+    let err_label = format!("{reported:?}");
+    let err_label = err_label.split(['(', ' ', '{']).next().unwrap_or("").to_string();
+    probe.label(format!("error={err_label}"));
+    match (&point.kind, &reported) {
+        (_, RuntimeError::ResourceFaulted) => {
+            return Err("the faulting call itself reported ResourceFaulted although the resource was not faulted before".into());
+        }
+        (Kind::Site { .. }, RuntimeError::IoDriver(_)) => {
+            return Err(format!(
+                "the injected runtime error did not surface: the cycle reached the output publish and reported {reported:?}"
+            ));
+        }
+        _ => {}
+    }
+    if !rt.faulted() {
+        return Err(format!("after the fault {reported:?} was reported, faulted() is false"));
+    }
+    if rt.last_fault() != Some(&reported) {
+        return Err(format!(
+            "after the fault {reported:?} was reported, last_fault() is {:?}",
+            rt.last_fault()
+        ));
+    }
+
+    let safe_due = match point.kind {
+        Kind::Watchdog => true, // watchdog action halt and safe_halt both apply the safe state
+        _ => point.policy == Pol::SafeHalt,
+    };
+    let check_safe = |rt: &Runtime, when: &str| -> Result<(), String> {
+        for e in &model.safe {
+            match rt.io().read(&e.addr) {
+                Ok(v) if v == e.value => {}
+                other => {
+                    return Err(format!(
+                        "{when}: safe-state address {} reads {:?} from the output image {:?}, safe value is {:?}",
+                        e.text,
+                        other,
+                        rt.io().outputs(),
+                        e.value
+                    ));
+                }
+            }
+        }
+        Ok(())
+    };
+    if safe_due {
+        check_safe(rt, "when the fault is reported")?;
+        if !model.safe.is_empty() {
+            let s = shared.lock().unwrap();
+            for d in 0..nd {
+                let last = s.events.iter().rev().find_map(|ev| match ev {
+                    Event::Write { driver, payload } if *driver == d => Some(payload),
+                    _ => None,
+                });
+                let Some(payload) = last else {
+                    return Err(format!(
+                        "driver {d} never received an output image although the safe state is due (fault {reported:?})"
+                    ));
+                };
+                for e in &model.safe {
+                    let got = read_from_payload(payload, &e.addr);
+                    if got.as_ref() != Ok(&e.value) {
+                        return Err(format!(
+                            "when the fault {reported:?} is reported, the last image driver {d} received is {:?}: address {} holds {:?}, safe value is {:?} (output image: {:?})",
+                            payload,
+                            e.text,
+                            got,
+                            e.value,
+                            rt.io().outputs()
+                        ));
+                    }
+                }
+            }
+        }
+    }
+
+    // classification (empirical: which other programs ran in the faulting cycle)
+    let at_fault = counters(rt, model);
+    let fault_prog = match &point.kind {
+        Kind::Site { site } => Some(model.sites[*site as usize].prog),
+        _ => None,
+    };
+    let mut nontrivial = nd >= 2;
+    if nd >= 2 {
+        probe.label("class=ge2_drivers");
+    }
+    if let (Some(fp), Kind::Site { site }) = (fault_prog, &point.kind) {
+        let s = &model.sites[*site as usize];
+        probe.label(format!("form={}", s.form.name()));
+        if s.form.depth() >= 1 {
+            probe.label(format!("class=nested_call_depth{}", s.form.depth()));
+            nontrivial = true;
+        }
+        let mut other_prog = false;
+        let mut other_task = false;
+        for (j, o) in model.sites.iter().enumerate() {
+            if before_fault_cycle.get(j) != at_fault.get(j) && o.prog != fp {
+                other_prog = true;
+                if model.prog_task[o.prog] != model.prog_task[fp] {
+                    other_task = true;
+                }
+            }
+        }
+        if other_prog {
+            probe.label("class=not_first_program_of_cycle");
+            nontrivial = true;
+        }
+        if other_task {
+            probe.label("class=not_first_task_of_cycle");
+        }
+        if model.prog_task[fp].is_none() {
+            probe.label("class=background_program");
+        }
+    }
+    if safe_due && model.safe.iter().any(|e| e.overlaps_output) {
+        probe.label("class=safe_address_overlaps_program_output");
+        nontrivial = true;
+    }
+    probe.label(match &point.kind {
+        Kind::Site { .. } => "kind=runtime_error",
+        Kind::Read { dead: false, .. } => "kind=driver_read_error_transient",
+        Kind::Read { dead: true, .. } => "kind=driver_read_error_dead",
+        Kind::Write { dead: false, .. } => "kind=driver_write_error_transient",
+        Kind::Write { dead: true, .. } => "kind=driver_write_error_dead",
+        Kind::Watchdog => "kind=watchdog_timeout",
+        Kind::Sim => "kind=simulation_fault",
+    });
+    probe.label(format!("policy={:?}/watchdog={:?}", point.policy, point.watchdog));
+    probe.label(if safe_due { "safe_state=due" } else { "safe_state=not_due" });
+    probe.label(format!("drivers={nd}"));
+    probe.label(format!("safe_map_entries={}", model.safe.len()));
+    probe.label(format!("fault_cycle={}", point.cycle));
+    if point.deliver_fail.is_some() {
+        probe.label("class=a_driver_fails_during_safe_delivery");
+    }
+
+    // ---- later cycle requests ---------------------------------------------------------
+    // Remove every fault cause first, so that a cycle that did run would succeed, change
+    // counters and call drivers.
+    {
+        let mut guard = shared.lock().unwrap();
+        let s = &mut *guard;
+        for m in s.read_mode.iter_mut().chain(s.write_mode.iter_mut()) {
+            *m = Mode::Ok;
+        }
+    }
+    if let Kind::Site { site } = &point.kind {
+        let s = &model.sites[*site as usize];
+        h.runtime_mut()
+            .storage_mut()
+            .set_global(s.ctl.as_str(), Value::DInt(if s.form == Form::Index { 0 } else { 1 }));
+    }
+    let digest0 = storage_digest(h.runtime());
+    let image0 = h.runtime().io().outputs().to_vec();
+    for later in 1..=LATER_CYCLES {
+        h.advance_time(Duration::from_millis(STEP_MS));
+        let res = h.runtime_mut().execute_cycle();
+        let rt = h.runtime();
+        if res != Err(RuntimeError::ResourceFaulted) {
+            return Err(format!(
+                "cycle request {later} after the fault {reported:?} returned {res:?}, expected Err(ResourceFaulted)"
+            ));
+        }
+        if !rt.faulted() {
+            return Err(format!("faulted() became false after refused cycle request {later}"));
+        }
+        let now = counters(rt, model);
+        if now != at_fault {
+            return Err(format!(
+                "refused cycle request {later} executed program statements: site counters {at_fault:?} -> {now:?}"
+            ));
+        }
+        if storage_digest(rt) != digest0 {
+            return Err(format!("refused cycle request {later} changed a variable (storage digest differs)"));
+        }
+        if rt.io().outputs() != image0.as_slice() {
+            return Err(format!(
+                "refused cycle request {later} changed the output image {:?} -> {:?}",
+                image0,
+                rt.io().outputs()
+            ));
+        }
+        let n = shared.lock().unwrap().events.len();
+        if n != events_at_report {
+            let s = shared.lock().unwrap();
+            return Err(format!(
+                "refused cycle request {later} called a driver: {:?}",
+                &s.events[events_at_report..]
+            ));
+        }
+        if safe_due {
+            check_safe(rt, "after a refused cycle request")?;
+        }
+    }
+
+    // ---- restart clears the latch -------------------------------------------------------
+    let mode = if point.warm_restart { RestartMode::Warm } else { RestartMode::Cold };
+    if let Err(e) = h.runtime_mut().restart(mode) {
+        return Err(format!("restart({mode:?}) after the fault {reported:?} failed: {e:?}"));
+    }
+    if h.runtime().faulted() {
+        return Err(format!("faulted() is still true after restart({mode:?})"));
+    }
+    h.advance_time(Duration::from_millis(STEP_MS));
+    let res = h.runtime_mut().execute_cycle();
+    if res == Err(RuntimeError::ResourceFaulted) {
+        return Err(format!("the first cycle after restart({mode:?}) is still refused with ResourceFaulted"));
+    }
+    if res.is_ok() && h.runtime().faulted() {
+        return Err(format!("faulted() is true after a successful cycle following restart({mode:?})"));
+    }
+    let n = shared.lock().unwrap().events.len();
+    if n == events_at_report {
+        return Err(format!("the first cycle after restart({mode:?}) did not call any driver"));
+    }
+
+    if nontrivial {
+        let mut key = model.source.as_bytes().to_vec();
+        key.extend_from_slice(format!("{:?}{:?}", model.safe, point).as_bytes());
+        probe.nontrivial(&key);
+        probe.sample(json!({
+            "point": point,
+            "drivers": nd,
+            "safe_map": model.safe.iter().map(|e| format!("{}={:?}", e.text, e.value)).collect::<Vec<_>>(),
+            "error": format!("{reported:?}"),
+            "program": model.source,
+        }));
+    }
+    Ok(())
+}
+
+
+// ---------------------------------------------------------------------------------------
+// The same guarantee through the resource scheduler thread (scheduler.rs)
+// ---------------------------------------------------------------------------------------
+
+#[derive(Clone, Debug, Serialize, Deserialize)]
+pub struct RunnerCase {
+    pub tape: Tape,
+    /// selects the site whose divisor/index is set to the faulting value before the
+    /// runner starts; None = no runtime error, the watchdog (negative timeout) trips
+    pub site: Option<u32>,
+    pub policy: Pol,
+    pub watchdog: Pol,
+    /// a driver whose write_outputs fails once the fault is due
+    pub deliver_fail: Option<u32>,
+}
+
+/// Deterministic clock: every `now()` is 10 ms after the previous one; counts the calls.
+#[derive(Clone, Debug)]
+struct StepClock {
+    inner: Arc<Mutex<(i64, u64)>>,
+}
+
+impl Clock for StepClock {
+    fn now(&self) -> Duration {
+        let mut g = self.inner.lock().unwrap();
+        g.0 += STEP_MS * 1_000_000;
+        g.1 += 1;
+        Duration::from_nanos(g.0)
+    }
+    fn sleep_until(&self, _deadline: Duration) {}
+}
+
+const RUNNER_MAX_CYCLES: u64 = 40;
+
+fn check_runner(case: &RunnerCase, probe: &mut Probe) -> Result<(), String> {
+    let model = generate(&case.tape);
+    let nd = model.ndrivers;
+    let site = case.site.map(|s| (s as u64 * model.sites.len() as u64 >> 32) as usize);
+    let mut deliver_fail = case.deliver_fail.map(|d| (d as u64 * nd as u64 >> 32) as usize);
+    if let (Some(k), Some(_)) = (site, deliver_fail) {
+        // a failing delivery can only be armed from the start when the site faults in the
+        // very first cycle (otherwise an earlier publish would hit the failing driver)
+        match dry_run(&model) {
+            Ok(runs) if runs[0][k] => {}
+            Ok(_) => deliver_fail = None,
+            Err(msg) => {
+                trouble(format!("{msg}\n{}", model.source));
+                return Ok(());
+            }
+        }
+    } else {
+        deliver_fail = None;
+    }
+    let h = match TestHarness::from_source(&model.source) {
+        Ok(h) => h,
+        Err(e) => {
+            trouble(format!("generated program does not compile: {e:?}\n{}", model.source));
+            return Ok(());
+        }
+    };
+    let mut rt = h.into_runtime();
+    let shared = Arc::new(Mutex::new(Shared {
+        events: Vec::new(),
+        read_mode: vec![Mode::Ok; nd],
+        write_mode: vec![Mode::Ok; nd],
+    }));
+    rt.set_fault_policy(pol_fault(case.policy));
+    rt.set_watchdog_policy(WatchdogPolicy {
+        // the scheduler compares wall-clock nanoseconds with the timeout: a negative
+        // timeout trips after the first completed cycle whatever the machine does
+        enabled: site.is_none(),
+        timeout: Duration::from_nanos(-1),
+        action: pol_watchdog(case.watchdog),
+    });
+    rt.set_io_safe_state(IoSafeState {
+        outputs: model.safe.iter().map(|e| (e.addr.clone(), e.value.clone())).collect(),
+    });
+    for d in 0..nd {
+        rt.add_io_driver(format!("drv{d}"), Box::new(LogDriver { id: d, shared: shared.clone() }));
+    }
+    if let Some(k) = site {
+        let s = &model.sites[k];
+        rt.storage_mut().set_global(s.ctl.as_str(), Value::DInt(s.fault_value));
+        // with a runtime error in the first cycle that runs the site no publish happens
+        // before the fault, so the next write_outputs of this driver is the safe delivery
+        if let Some(d) = deliver_fail {
+            shared.lock().unwrap().write_mode[d] = Mode::FailAlways;
+        }
+    }
+    let clock = StepClock { inner: Arc::new(Mutex::new((0, 0))) };
+    let runner = ResourceRunner::new(rt, clock.clone(), Duration::from_millis(STEP_MS));
+    let mut handle = runner
+        .spawn("c08-runner")
+        .map_err(|e| format!("cannot spawn the resource thread: {e:?}"))?;
+    // wait until the thread reports Faulted, or the deterministic cycle bound is exceeded
+    let mut gave_up = false;
+    let started = std::time::Instant::now();
+    loop {
+        if handle.state() == ResourceState::Faulted || handle.state() == ResourceState::Stopped {
+            break;
+        }
+        let cycles = clock.inner.lock().unwrap().1;
+        if cycles > RUNNER_MAX_CYCLES {
+            break;
+        }
+        if started.elapsed() > std::time::Duration::from_secs(20) {
+            gave_up = true;
+            break;
+        }
+        std::thread::yield_now();
+    }
+    let state = handle.state();
+    handle.stop();
+    let _ = handle.join();
+    let last_error = handle.last_error();
+    if gave_up {
+        // infrastructure (machine stalled), never a verdict
+        probe.label("runner=wall_clock_guard_hit");
+        return Ok(());
+    }
+    let ctx_text = || {
+        format!(
+            "\n--- runner case site={site:?} policy={:?} watchdog={:?} deliver_fail={deliver_fail:?}; {} driver(s); safe-state map {:?}; program:\n{}",
+            case.policy,
+            case.watchdog,
+            nd,
+            model.safe.iter().map(|e| format!("{}={:?}", e.text, e.value)).collect::<Vec<_>>(),
+            model.source
+        )
+    };
+    if state != ResourceState::Faulted {
+        return Err(format!(
+            "the resource thread ran {RUNNER_MAX_CYCLES} cycles without entering the Faulted state (state {state:?}, last error {last_error:?}) although a fault was due in one of the first 3 cycles{}",
+            ctx_text()
+        ));
+    }
+    let Some(err) = last_error else {
+        return Err(format!("resource state is Faulted but last_error() is None{}", ctx_text()));
+    };
+    match (&site, &err) {
+        (None, RuntimeError::WatchdogTimeout) => {}
+        (None, other) => {
+            return Err(format!("watchdog trip expected, the resource thread reported {other:?}{}", ctx_text()));
+        }
+        (Some(_), RuntimeError::WatchdogTimeout | RuntimeError::ResourceFaulted | RuntimeError::IoDriver(_)) => {
+            return Err(format!("runtime error expected, the resource thread reported {err:?}{}", ctx_text()));
+        }
+        _ => {}
+    }
+    let safe_due = site.is_none() || case.policy == Pol::SafeHalt;
+    if safe_due && !model.safe.is_empty() {
+        let s = shared.lock().unwrap();
+        for d in 0..nd {
+            let last = s.events.iter().rev().find_map(|ev| match ev {
+                Event::Write { driver, payload } if *driver == d => Some(payload),
+                _ => None,
+            });
+            let Some(payload) = last else {
+                return Err(format!(
+                    "driver {d} never received an output image although the safe state is due (fault {err:?}){}",
+                    ctx_text()
+                ));
+            };
+            for e in &model.safe {
+                let got = read_from_payload(payload, &e.addr);
+                if got.as_ref() != Ok(&e.value) {
+                    return Err(format!(
+                        "resource thread faulted with {err:?}; the last image driver {d} received is {payload:?}: address {} holds {got:?}, safe value is {:?}{}",
+                        e.text,
+                        e.value,
+                        ctx_text()
+                    ));
+                }
+            }
+        }
+    }
+    probe.label(if site.is_some() { "runner=runtime_error" } else { "runner=watchdog_trip" });
+    probe.label(if safe_due { "runner_safe_state=due" } else { "runner_safe_state=not_due" });
+    if nd >= 2 || model.safe.iter().any(|e| e.overlaps_output) {
+        let mut key = model.source.as_bytes().to_vec();
+        key.extend_from_slice(format!("runner{:?}{site:?}{:?}{:?}{deliver_fail:?}", model.safe, case.policy, case.watchdog).as_bytes());
+        probe.nontrivial(&key);
+    }
+    Ok(())
+}
+
+fn check_case(case: &PointCase, probe: &mut Probe) -> Result<(), String> {
+    let model = generate(&case.tape);
+    check_point(&model, &case.point, probe)
+}
+
+/// Tape of program number `index`, drawn through the proptest strategy from a generator
+/// seeded by (VERIF_SEED, index) only - independent of the number of workers.
+fn tape_for(seed: u64, index: u32) -> Tape {
+    let mut h = Sha256::new();
+    h.update(b"C08-program");
+    h.update(seed.to_le_bytes());
+    h.update(index.to_le_bytes());
+    let bytes: [u8; 32] = h.finalize().into();
+    let rng = TestRng::from_seed(RngAlgorithm::ChaCha, &bytes);
+    let mut runner = TestRunner::new_with_rng(Config::default(), rng);
+    // lengths are uniform in 0..400 and a full configuration consumes ~100 words: about a
+    // quarter of the programs are cut short (zero tail = simplest choices), the rest are full
+    tape_strategy(400)
+        .new_tree(&mut runner)
+        .expect("tape strategy")
+        .current()
+}
+
 fn run(ctx: &mut RunCtx) {
-    ctx.inconclusive("check not built yet");
+    // replay tier (reproducers of fixed/open findings) - single fault points
+    let replay_strategy = tape_strategy(4).prop_map(|tape| PointCase {
+        tape,
+        point: Point {
+            kind: Kind::Sim,
+            cycle: 1,
+            policy: Pol::SafeHalt,
+            watchdog: Pol::SafeHalt,
+            deliver_fail: None,
+            warm_restart: false,
+        },
+    });
+    ctx.search("point", replay_strategy, 0, check_case);
+    let pol = || prop_oneof![Just(Pol::Halt), Just(Pol::SafeHalt)];
+    let runner_strategy = (
+        tape_strategy(400),
+        proptest::option::weighted(0.7, any::<u32>()),
+        pol(),
+        pol(),
+        proptest::option::weighted(0.4, any::<u32>()),
+    )
+        .prop_map(|(tape, site, policy, watchdog, deliver_fail)| RunnerCase {
+            tape,
+            site,
+            policy,
+            watchdog,
+            deliver_fail,
+        });
+    ctx.search("runner", runner_strategy, ctx.tier.pick(400, 8000), check_runner);
+    flush_trouble(ctx);
+    if ctx.only_replay.is_some() {
+        return;
+    }
+
+    let nprograms = ctx.tier.pick(48, 2400);
+    let mut reported = 0usize;
+    let mut seen_sources: BTreeSet<u64> = BTreeSet::new();
+    for index in 0..nprograms {
+        if index as usize % ctx.nworkers.max(1) != ctx.worker {
+            continue;
+        }
+        let tape = tape_for(ctx.seed, index);
+        let model = generate(&tape);
+        if !seen_sources.insert(crate::engine::digest64(
+            format!("{}{:?}{}", model.source, model.safe, model.ndrivers).as_bytes(),
+        )) {
+            continue;
+        }
+        let runs = match dry_run(&model) {
+            Ok(r) => r,
+            Err(msg) => {
+                ctx.inconclusive(format!(
+                    "generator trouble (not a violation): {msg}\n{}",
+                    model.source
+                ));
+                continue;
+            }
+        };
+        let points = enumerate_points(&model, &runs);
+        for point in points {
+            let case = PointCase {
+                tape: tape.clone(),
+                point,
+            };
+            let j = serde_json::to_value(&case).unwrap();
+            let before = ctx.stats.violations.len();
+            ctx.enumerated("point", &j, |probe| check_point(&model, &case.point, probe));
+            if ctx.stats.violations.len() > before {
+                reported += 1;
+                break; // one report per program is enough; go on with the next program
+            }
+        }
+        if reported >= 3 {
+            break;
+        }
+    }
+    flush_trouble(ctx);
 }
